@@ -43,7 +43,7 @@ MustFailAt(n, ch) ==
             [] n = "empty piece" -> {W, WE}
             [] OTHER -> {})
     [] ch = "flag" ->
-         (CASE n \in {"unknown dynamic", "tempo 0"} -> WriteAll       \* (--bpm 0 is tempo 0 as a flag value, not "no flag")
+         (CASE n \in {"unknown dynamic", "tempo 0", "zero denominator"} -> WriteAll      \* (--meter 4/0: a meter is a fraction too)       \* (--bpm 0 is tempo 0 as a flag value, not "no flag")
             [] n \in {"key without scale", "malformed key"} -> WriteAll \cup {TCS, IKD, IKC}
             [] n = "unknown modifier" -> {WC}
             [] OTHER -> {})
